@@ -69,6 +69,14 @@ func TdxPolicy(ctx context.Context, endorsement *epb.VMLaunchEndorsement, opts *
 		}
 		mrtds = append(mrtds, m.GetMrtd())
 	}
+	// An empty allow-list means go-tdx-guest does not check MRTD at all, so a configuration without
+	// an endorsed measurement must be an error rather than a policy that accepts anything.
+	if len(mrtds) == 0 {
+		if opts.RAMGiB != 0 {
+			return nil, fmt.Errorf("endorsement has no TDX measurement for %d GiB of RAM", opts.RAMGiB)
+		}
+		return nil, fmt.Errorf("endorsement has no TDX measurements")
+	}
 	if err := modifyTdxPolicy(result, mrtds, opts); err != nil {
 		return nil, err
 	}
